@@ -320,6 +320,18 @@ def rule_constructor(ctx: Ctx, cls: str = GENERIC, rule: str = "ctor") -> None:
                         "not derivable: %s |- %s (a=%s, g=%s; path %s)" % ([P.show(h) for h in hyps], P.show(goal), P.show(fa.n), P.show(fg.n), path_label(p)),
                         where=init.where,
                     )
+            # when the guarantees are simplified, the context is the whole assumption list: a part of it leaves
+            # guarantees that the full assumptions make redundant (C07: nothing further can be dropped)
+            node = P.nodes[fg.n]
+            while node[0] == "copy":
+                node = P.nodes[node[1]]
+            if node[0] == "simp":
+                construct = "constructor: the guarantees are simplified in the context of all the assumptions"
+                cn = node[2]
+                if cn is not None and _strip(P, cn) == _strip(P, fa.n):
+                    ctx.ok(rule + "-meaning", fkey, construct + " @ " + _short(p))
+                else:
+                    ctx.violation(rule + "-meaning", fkey, construct, "the context is %s, not the stored assumptions %s: guarantees implied only through the left-out assumptions stay" % (P.show(cn, 4) if cn is not None else "empty", P.show(fa.n, 3)), where=init.where)
             # defensive copies: stored lists are not the argument objects themselves
             for nm, f, arg in (("a", fa, An), ("g", fg, Gn)):
                 construct = "constructor stores a copy of %s" % nm
